@@ -17,7 +17,7 @@ GOENV = dict(os.environ, GOFLAGS="-mod=mod", GOPROXY="off", GOSUMDB="off", GOTOO
 
 KF_ALL = ["KF_CollisionWinner", "KF_CounterFirst", "KF_TagAdoptEarly", "KF_ResendHistory",
           "KF_MacPerMessage", "KF_CounterGrowth", "KF_StraySigFlush", "KF_ReAKEWipesMacs", "KF_FragKeep",
-          "KF_BadCommitWipes", "KF_EarlyPeerKey", "KF_RejectCommits", "KF_AKETimerAlways", "KF_SMPCorruptSilent", "KF_EarlySSID", "KF_RequeryNewCommit"]
+          "KF_BadCommitWipes", "KF_EarlyPeerKey", "KF_RejectCommits", "KF_AKETimerAlways", "KF_SMPCorruptSilent", "KF_EarlySSID", "KF_RequeryNewCommit", "KF_TagRestarts"]
 
 
 class Broken(Exception):
@@ -111,7 +111,7 @@ def write_mc(d, consts, kf, invariants=(), properties=(), spec="Spec", export=Fa
         prelude = [dict(a="Query", p="A")] + prelude
         drain = True
     c = dict(MaxSend=0, MaxFlight=2, MaxTick=0, MaxEnd=0, MaxQuery=0, MaxExtra=0,
-             NetMode="fifo", MaxDup=0, MaxDrop=0, AllPol=False, MaxOffer=0, MaxSMPStart=0, MaxSMPAnswer=0, MaxSMPAbort=0)
+             NetMode="fifo", MaxDup=0, MaxDrop=0, MaxAtk=0, AllPol=False, MaxOffer=0, MaxSMPStart=0, MaxSMPAnswer=0, MaxSMPAbort=0)
     c.update({k: v for k, v in consts.items() if k not in ("PolA", "PolB", "VerA", "VerB", "Setup", "Prelude", "PreludeDrain", "Secrets")})
     c["PreludeDrain"] = drain
     mc = ["---- MODULE MC ----", "EXTENDS OTRModel",
